@@ -237,3 +237,34 @@ def finish(pid, tier, seed, res, t0, rule, assumptions, extra=None, min_features
         print('total violating cases: %d (examples kept: %d)' % (res.nviol, len(real)))
         return 1
     return 0
+
+
+def run_shard_in_child(modname, shard, env_overrides, unset=()):
+    """Run mod.run_shard(shard) in a fresh interpreter whose process environment differs (locale, UTF-8 mode, PYTHONIOENCODING, hash seed ...): the environment is an input
+    the explorer owns, like the table and the schedule. Returns the child's Result (re-built from its pack); a child that dies is a harness error."""
+    import subprocess, json as _json
+    env = dict(os.environ)
+    for k in unset:
+        env.pop(k, None)
+    env.update(env_overrides)
+    env['PYTHONWARNINGS'] = 'ignore'
+    sh = dict(shard)
+    sh.pop('child_env', None)
+    sh.pop('child_unset', None)
+    code = ("import sys, json; sys.path.insert(0, %r); import importlib; from vf import core; mod = importlib.import_module(%r); "
+            "sh = json.loads(sys.stdin.buffer.read().decode('utf-8')); res = mod.run_shard(sh); sys.stdout.buffer.write(json.dumps(res.pack()).encode('utf-8'))" % (VERIF, modname))
+    p = subprocess.run([sys.executable, '-c', code], input=_json.dumps(sh).encode('utf-8'), stdout=subprocess.PIPE, stderr=subprocess.PIPE, env=env, timeout=3600)
+    if p.returncode != 0:
+        raise RuntimeError('child interpreter under %r failed: %s' % (env_overrides, p.stderr.decode('utf-8', 'replace')[-1500:]))
+    pack = _json.loads(p.stdout.decode('utf-8'))
+    res = Result()
+    for k in ('evaluations', 'nontrivial', 'states', 'transitions', 'traces', 'nviol'):
+        setattr(res, k, pack[k])
+    res.features.update(pack['features'])
+    res.outcomes.update(pack['outcomes'])
+    for v in pack['violations']:
+        v['case'] = dict(v['case'], process_environment=env_overrides) if isinstance(v['case'], dict) else v['case']
+        res.violations.append(v)
+    res.samples = pack['samples']
+    res.feat('child_interpreter_shards')
+    return res
